@@ -110,3 +110,90 @@ func TestRunVersusRun(t *testing.T) {
 		sec.Sample(func() any { return c.String() })
 	})
 }
+
+// Close racing Close: several goroutines call Close of one RunnerCloserManager at the same instant - on a manager that
+// never ran, and on a running one (whose Run then ends). Every call returns (no panic), the closers run exactly once,
+// and on the running manager every Close returns the same joined result as Run.
+func runCloseRace(c runRaceCase) string {
+	defer runtime.GOMAXPROCS(runtime.GOMAXPROCS(c.Procs))
+	log := quietLogger()
+	for round := 0; round < c.Rounds; round++ {
+		var closerCalls atomic.Int32
+		boom := fmt.Errorf("runner-error-%d", round)
+		started := make(chan struct{})
+		m := concurrency.NewRunnerCloserManager(log, nil, func(ctx context.Context) error { close(started); <-ctx.Done(); return boom })
+		if err := m.AddCloser(func() { closerCalls.Add(1) }); err != nil {
+			return fmt.Sprintf("round %d: AddCloser: %v", round, err)
+		}
+		running := c.Kind == "running"
+		runRes := make(chan error, 1)
+		if running {
+			go func() { runRes <- m.Run(context.Background()) }()
+			<-started
+		}
+		results := make([]error, c.Callers)
+		panics := make([]any, c.Callers)
+		var wg, ready sync.WaitGroup
+		gate := make(chan struct{})
+		for k := 0; k < c.Callers; k++ {
+			wg.Add(1)
+			ready.Add(1)
+			go func() {
+				defer wg.Done()
+				defer func() { panics[k] = recover() }()
+				ready.Done()
+				<-gate
+				results[k] = m.Close()
+			}()
+		}
+		ready.Wait()
+		close(gate)
+		wg.Wait()
+		vk.Progress()
+		for k, p := range panics {
+			if p != nil {
+				return fmt.Sprintf("round %d: Close call %d of %d simultaneous ones panicked: %v", round, k, c.Callers, p)
+			}
+		}
+		if running {
+			rr := <-runRes
+			if !errors.Is(rr, boom) {
+				return fmt.Sprintf("round %d: Run returned %v, want the runner's error", round, rr)
+			}
+			for k, e := range results {
+				if !errors.Is(e, boom) {
+					return fmt.Sprintf("round %d: Close call %d returned %v, Run returned %v: every Close call returns the joined runner and closer errors", round, k, e, rr)
+				}
+			}
+			if n := closerCalls.Load(); n != 1 {
+				return fmt.Sprintf("round %d: the closer was called %d times", round, n)
+			}
+		} else {
+			for k, e := range results {
+				if e != nil {
+					return fmt.Sprintf("round %d: Close call %d on a manager that never ran returned %v", round, k, e)
+				}
+			}
+			if err := m.Run(context.Background()); err == nil {
+				return fmt.Sprintf("round %d: Run after Close returned nil: Close on a manager that never ran prevents a later Run", round)
+			}
+		}
+	}
+	return ""
+}
+
+func TestCloseVersusClose(t *testing.T) {
+	sec := vk.Sec("CloseVersusClose")
+	vk.Check(t, 10, 300, func(rt *rapid.T) {
+		c := runRaceCase{Kind: rapid.SampledFrom([]string{"never-ran", "running"}).Draw(rt, "kind"), Callers: rapid.SampledFrom([]int{2, 3, 8}).Draw(rt, "callers"),
+			Procs: rapid.SampledFrom([]int{2, 4, 16}).Draw(rt, "procs"), Rounds: vk.Pick(6000, 40000), Runners: 1}
+		var failure string
+		vk.Guard("C12 close-vs-close "+c.String(), func() { failure = runCloseRace(c) })
+		if failure != "" {
+			rt.Fatalf("C12 runner/closer manager violated: %s\ncase: close-vs-close %s", failure, c)
+		}
+		sec.Case(true, vk.FP("cvc", c.String()), "close-vs-close."+c.Kind)
+		sec.ClassN("close-vs-close.managers", int64(c.Rounds))
+		sec.Sample(func() any { return "close-vs-close " + c.String() })
+	})
+}
